@@ -157,6 +157,57 @@ def _matrix(prog, ci, c2, sm, c, gv, rname):
     return ok, why
 
 
+CLAMPS = {"maximum", "minimum", "clip", "fmax", "fmin", "where", "nan_to_num"}
+
+
+def _clamped_factor(prog, ci, sm, gv):
+    """The attributes `sample_momentum` reads are computed in the constructor through a clamp (maximum / clip / where ...) of a
+    quantity derived from the inverse mass, while the attributes `get_velocity` reads are not: the momenta are then drawn for a
+    different matrix than the one the kinetic energy uses whenever the clamp is active - T T^T V = I cannot hold for every input."""
+    c0, init = prog.find_method(ci, "__init__")
+    if init is None:
+        return None
+    me = init.args.args[0].arg
+    defs = {}
+    for st in ast.walk(init):
+        if isinstance(st, ast.Assign):
+            for t in st.targets:
+                for x in (t.elts if isinstance(t, (ast.Tuple, ast.List)) else [t]):
+                    if isinstance(x, ast.Name):
+                        defs.setdefault(x.id, []).append(st.value)
+                    elif isinstance(x, ast.Attribute) and isinstance(x.value, ast.Name) and x.value.id == me:
+                        defs.setdefault("self." + x.attr, []).append(st.value)
+
+    def closure(key, seen):
+        out = []
+        for v in defs.get(key, ()):
+            out.append(v)
+            for n in ast.walk(v):
+                k2 = n.id if isinstance(n, ast.Name) else ("self." + n.attr) if isinstance(n, ast.Attribute) and isinstance(n.value, ast.Name) and n.value.id == me else None
+                if k2 and k2 in defs and k2 not in seen:
+                    seen.add(k2)
+                    out += closure(k2, seen)
+        return out
+
+    def clamp_in(fn):
+        reads = {"self." + n.attr for n in ast.walk(fn) if isinstance(n, ast.Attribute) and isinstance(n.value, ast.Name) and n.value.id == fn.args.args[0].arg}
+        hits = []
+        for r in sorted(reads):
+            for v in closure(r, {r}):
+                for n in ast.walk(v):
+                    if isinstance(n, ast.Call):
+                        nm = n.func.attr if isinstance(n.func, ast.Attribute) else n.func.id if isinstance(n.func, ast.Name) else None
+                        if nm in CLAMPS or (nm in ("max", "min") and isinstance(n.func, ast.Name) and len(n.args) >= 2):
+                            hits.append((r, n.lineno, U(n)[:70]))
+        return hits
+    hs, hv = clamp_in(sm), clamp_in(gv)
+    if hs and not hv:
+        r, line, text = hs[0]
+        return (f"{r}, which scales the momentum draw, is computed through `{text}` (line {line}) - a clamped copy of the inverse mass - while the "
+                f"velocity / kinetic energy use the inverse mass as given: whenever the clamp is active the momenta are not drawn from exp(-K)")
+    return None
+
+
 def momentum_obligations(prog, rule, mass_rule=None):
     """One obligation per concrete mass class: covariance of the momentum draw = inverse of the velocity metric."""
     out = []
@@ -179,7 +230,12 @@ def momentum_obligations(prog, rule, mass_rule=None):
                     form = "matrix"
                     ok, why = _matrix(prog, ci, c2, sm, c, gv, rname)
         except Unsupported as e:
-            raise AnalysisError(f"{rule}: momentum law of {ci.name} not expressible in normal form: {e}")
+            hz = _clamped_factor(prog, ci, sm, gv)
+            if hz:
+                # a definite reason that needs no normal form: the draw and the velocity are built from different matrices
+                ok, why = False, hz
+            else:
+                raise AnalysisError(f"{rule}: momentum law of {ci.name} not expressible in normal form: {e}")
         out.append(struct_ob(rule, qual(c2, sm) + f"[{ci.name}]", ok,
                              "momenta must be drawn with covariance inverse to the metric of the kinetic energy "
                              "(r . get_velocity(r) / 2): " + why,
